@@ -804,14 +804,123 @@ def h_derivative_of_expression(eng):
               parts=[getattr(p_, "kind", "?") for p_ in r.args[1].args])
 
 
+# ---------------------------------------------------------------------------------------------
+# built-in array functions, der, user function calls, array literals, literals
+def h_builtin_functions(eng):
+    gm = install(eng)
+    A = AstFactory(eng)
+    cas = eng.ext_modules["casadi"]
+    dm = VClass("DM")
+    for nme in ("ones", "zeros", "eye"):
+        dm.attrs[nme] = stub((lambda n: lambda eng, *a: MXT("DM." + n, a))(nme))
+    cas.attrs["DM"] = dm
+    cas.attrs["linspace"] = stub(lambda eng, *a: MXT("ca.linspace", a))
+    CASES = ["der", "transpose", "sum", "linspace", "fill1", "fill2", "zeros1", "zeros2", "ones1", "ones2", "identity", "cat", "user-function", "array", "primary"]
+    case = CASES[eng.choice(len(CASES))]
+    eng.input("construct", case)
+    f = eng.find_function(GEN, "Generator.exitExpression")
+    nodes = [A.ref("o%d" % i) for i in range(4)]
+    terms = [MXT("operand%d" % i) for i in range(4)]
+    ints = {}
+    g = gen_obj(eng, gm, list(zip(nodes, terms)))
+
+    def get_integer(eng, args, kw):
+        t = args[1]
+        for i, n_ in enumerate(nodes):
+            if t is n_:
+                ints[i] = 2 + i
+                return 2 + i
+        raise Unsupported("get_integer of an unexpected node")
+    eng.call_contracts["Generator.get_integer"] = get_integer
+    der_calls, fn_calls = [], []
+
+    def get_derivative(eng, args, kw):
+        der_calls.append(args[1])
+        return MXT("derivative-of", (args[1],))
+    eng.call_contracts["Generator.get_derivative"] = get_derivative
+
+    class Fn(Ext):
+        def sym_getattr(self, eng, name):
+            if name == "call":
+                def call(eng, args, *modes):
+                    fn_calls.append((eng.iterate(args), modes))
+                    return VList([MXT("out0"), MXT("out1")])
+                return stub(call)
+            raise Unsupported("Function.%s" % name)
+    eng.call_contracts["Generator.get_function"] = lambda eng, args, kw: Fn() if args[1] == "myfn" else _uns()
+    is_ = lambda r, kind, *args: isinstance(r, MXT) and r.kind == kind and len(r.args) == len(args) and all(a is b or a == b for a, b in zip(r.args, args))
+
+    def run(op, *operands):
+        tree = A.expr(op, *operands)
+        eng.call(VBound(f, g), [tree], {})
+        return ops.getitem(eng, g.fields["src"], tree)
+    eng.cover("builtin." + case)
+    if case == "der":
+        r = run("der", nodes[0])
+        eng.prove("builtin.der_is_the_derivative_of_its_operand", z3.BoolVal(is_(r, "derivative-of", terms[0]) and len(der_calls) == 1))
+    elif case == "transpose":
+        r = run(A.ref("transpose"), nodes[0])
+        eng.prove("builtin.transpose", z3.BoolVal(is_(r, "T", terms[0])))
+    elif case == "sum":
+        r = run(A.ref("sum"), nodes[0])
+        eng.prove("builtin.sum_adds_the_elements_of_its_operand", z3.BoolVal(is_(r, "ca.sum1", terms[0])))
+    elif case == "linspace":
+        r = run(A.ref("linspace"), nodes[0], nodes[1], nodes[2])
+        eng.prove("builtin.linspace_from_to_count", z3.BoolVal(is_(r, "ca.linspace", terms[0], terms[1], 4)))
+    elif case in ("fill1", "fill2"):
+        r = run(A.ref("fill"), *nodes[:2 if case == "fill1" else 3])
+        want = (3,) if case == "fill1" else (3, 4)
+        ok = isinstance(r, MXT) and r.kind == "binop:Mult" and r.args[0] is terms[0] and is_(r.args[1], "DM.ones", *want)
+        eng.prove("builtin.fill_is_value_times_ones_of_the_given_size", z3.BoolVal(bool(ok)))
+    elif case in ("zeros1", "zeros2", "ones1", "ones2"):
+        name = case[:-1]
+        k = int(case[-1])
+        r = run(A.ref(name), *nodes[:k])
+        eng.prove("builtin.zeros_and_ones_have_the_given_size_rows_first", z3.BoolVal(is_(r, "DM." + name, *[2 + i for i in range(k)])))
+    elif case == "identity":
+        r = run(A.ref("identity"), nodes[0])
+        eng.prove("builtin.identity_of_the_given_size", z3.BoolVal(is_(r, "DM.eye", 2)))
+    elif case == "cat":
+        lst = VList([MXT("e0"), MXT("e1")])
+        g2nodes = list(zip(nodes, [None, terms[1], lst, terms[3]]))
+        eng.call_contracts["Generator.get_mx"] = lambda eng, args, kw: next(v for n_, v in g2nodes if n_ is args[1])
+        eng.call_contracts["Generator.get_integer"] = lambda eng, args, kw: 1 if args[1] is nodes[0] else _uns()
+        r = run(A.ref("cat"), *nodes)
+        ok = isinstance(r, MXT) and r.kind == "ca.vertcat" and len(r.args) == 4 and r.args[0] is terms[1] and r.args[1] is lst.items[0] and r.args[2] is lst.items[1] and r.args[3] is terms[3]
+        eng.prove("builtin.cat_concatenates_its_arguments_in_order", z3.BoolVal(bool(ok)))
+    elif case == "user-function":
+        mode = bool(eng.choice(2))
+        g.fields["function_mode"] = (True, False) if mode else (False, True)
+        r = run("myfn", nodes[0], nodes[1], nodes[2])
+        ok = len(fn_calls) == 1 and len(fn_calls[0][0]) == 3 and all(a is b for a, b in zip(fn_calls[0][0], terms[:3])) and tuple(fn_calls[0][1]) == g.fields["function_mode"]
+        ok = ok and isinstance(r, MXT) and r.kind == "ca.vertcat" and len(r.args) == 2 and r.args[0].kind == "out0" and r.args[1].kind == "out1"
+        eng.prove("builtin.user_function_called_with_the_operands_in_order_outputs_stacked_in_order", z3.BoolVal(bool(ok)))
+    elif case == "array":
+        vals = [A.prim(1), A.prim(2), A.prim(3)]
+        for v, t in zip(vals, terms):
+            ops.setitem(eng, g.fields["src"], v, t)
+        arr = VObj(VClass("Array"), {"values": VList(vals)})
+        eng.call(VBound(eng.find_function(GEN, "Generator.exitArray"), g), [arr], {})
+        r = ops.getitem(eng, g.fields["src"], arr)
+        items = eng.iterate(r)
+        eng.prove("builtin.array_literal_keeps_its_elements_in_order", z3.BoolVal(len(items) == 3 and all(a is b for a, b in zip(items, terms[:3]))))
+    else:
+        v = eng.fresh_real("lit")
+        pr = A.prim(v)
+        eng.call(VBound(eng.find_function(GEN, "Generator.exitPrimary"), g), [pr], {})
+        r = ops.getitem(eng, g.fields["src"], pr)
+        eng.prove("builtin.literal_translates_to_its_value", ops.to_arith(r) == v)
+
+
 HARNESSES = [("Generator.exitExpression/operators", h_operator_dispatch), ("Generator.exitIfExpression", h_if_expression),
              ("Generator.exitIfEquation", h_if_equation), ("Generator.exitEquation", h_equation), ("ForLoop.__init__", h_for_range),
              ("Generator.exitForEquation", h_for_equation), ("Generator.exitForStatement", h_for_statement),
              ("Generator.exitIfStatement+exitAssignmentStatement", h_assignment_and_if_statement),
              ("Generator.get_function", h_get_function), ("Generator.exitEquation/shapes", h_equation_shapes),
-             ("Generator.get_derivative/expression", h_derivative_of_expression)]
+             ("Generator.get_derivative/expression", h_derivative_of_expression),
+             ("Generator.exitExpression/built-in array functions, der, calls; exitArray; exitPrimary", h_builtin_functions)]
 EXPECTED_COVER = {"op.done", "ifexpr.done", "ifeq.done", "eq.done", "range.done", "forloop.empty", "forloop.mapped", "forstmt.empty", "forstmt.mapped",
-                  "ifstmt.done", "fn.done", "eqshape.done", "derexpr.done"}
+                  "ifstmt.done", "fn.done", "eqshape.done", "derexpr.done"} | {"builtin." + c for c in ("der", "transpose", "sum", "linspace", "fill1", "fill2", "zeros1", "zeros2", "ones1", "ones2", "identity", "cat", "user-function", "array", "primary")}
 BOUNDED = True
 LEVEL = "proof"
 TRUSTED = ["pyvc VC generator", "z3 5.1.0",
